@@ -111,6 +111,7 @@ type Pkg struct {
 	NoInj   bool     `json:"noinj,omitempty"` // deliberately without injectors (a dependency of packages that have some)
 	NFiles  int      `json:"nfiles"`         // number of injector files
 	CopyFns int      `json:"copyfns,omitempty"`
+	LineDir bool     `json:"linedir,omitempty"` // every injector file but the first starts with the same relative //line directive (generated-from-template style)
 	Cgo     bool     `json:"cgo,omitempty"`    // the first injector file imports "C": the loader parses cgo's translated copy in the build cache
 	Facade  bool     `json:"facade,omitempty"` // declares nothing but alias variables of other packages' sets: no wire import, no injectors
 }
@@ -226,6 +227,7 @@ func Generate(r *rand.Rand, k Knobs) *Module {
 		}
 		// a package without injectors that later packages depend on (never the last one)
 		p.NoInj = i+1 < k.NPkgs && r.IntN(6) == 0
+		p.LineDir = r.IntN(5) == 0
 		m.Pkgs = append(m.Pkgs, p)
 	}
 	nameUsed := map[string]bool{}
